@@ -10,7 +10,7 @@ from __future__ import annotations
 import ast
 from typing import Dict, List, Optional, Set, Tuple
 
-from ..model import ClassInfo, FuncInfo, attr_path, dotted, unparse, walk_no_nested
+from ..model import ClassInfo, FuncInfo, Repo, attr_path, dotted, unparse, walk_no_nested
 from ..report import Check
 
 _MUTABLE_CALLS = {"dict", "list", "set", "defaultdict", "OrderedDict", "WeakValueDictionary",
@@ -37,6 +37,57 @@ def _is_mutable_value(v: Optional[ast.AST]) -> bool:
     return False
 
 
+_READ_METHODS = {"get", "keys", "items", "values", "copy", "index", "count", "__contains__", "__getitem__"}
+_COPYING_CALLS = {"dict", "list", "set", "tuple", "sorted", "frozenset", "len", "iter", "enumerate", "zip", "any", "all"}
+
+
+def _escaping_uses(repo: Repo, module: str, name: str) -> List[str]:
+    """uses of a module-level object other than reading it or copying it: a table that is only
+    read is a constant, whatever its type"""
+    out: List[str] = []
+    for mod in repo.modules.values():
+        imported = mod.name == module or any(
+            isinstance(st, ast.ImportFrom) and any((a.asname or a.name) == name for a in st.names)
+            for st in ast.walk(mod.tree))
+        if not imported:
+            continue
+        for n in ast.walk(mod.tree):
+            if not (isinstance(n, ast.Name) and n.id == name):
+                continue
+            par = getattr(n, "_parent", None)
+            where = "%s:%d" % (mod.relpath, n.lineno)
+            if isinstance(n.ctx, ast.Store):
+                if isinstance(par, (ast.Assign, ast.AnnAssign)) and isinstance(getattr(par, "_parent", None), ast.Module):
+                    continue            # the definition itself
+                out.append("rebound at %s" % where)
+                continue
+            if isinstance(par, ast.Subscript) and par.value is n:
+                if isinstance(par.ctx, ast.Load):
+                    continue
+                out.append("item written at %s" % where)
+                continue
+            if isinstance(par, ast.Attribute) and par.value is n:
+                gp = getattr(par, "_parent", None)
+                if par.attr in _READ_METHODS and isinstance(gp, ast.Call) and gp.func is par:
+                    continue
+                out.append(".%s at %s" % (par.attr, where))
+                continue
+            if isinstance(par, ast.Call) and n in par.args and isinstance(par.func, ast.Name) and \
+                    par.func.id in _COPYING_CALLS:
+                continue
+            if isinstance(par, ast.Compare) and n in par.comparators and \
+                    all(isinstance(o, (ast.In, ast.NotIn)) for o in par.ops):
+                continue
+            if isinstance(par, (ast.For, ast.comprehension)) and par.iter is n:
+                continue
+            if isinstance(par, ast.Dict) and n in par.values and par.keys[par.values.index(n)] is None:
+                continue                # {**NAME}
+            if isinstance(par, (ast.ImportFrom, ast.alias)):
+                continue
+            out.append("used as a value at %s (%s)" % (where, type(par).__name__))
+    return out
+
+
 def codec_state(chk: Check, rule: str, modules: Tuple[str, ...] = ("serialization",)) -> int:
     repo = chk.repo
     n = 0
@@ -53,10 +104,12 @@ def codec_state(chk: Check, rule: str, modules: Tuple[str, ...] = ("serializatio
                 continue
             n += 1
             nm = unparse(tg)
-            chk.ob(rule, "%s:module-state(%s)" % (mn, nm), not _is_mutable_value(val),
+            escapes = _escaping_uses(repo, mn, nm) if _is_mutable_value(val) and isinstance(tg, ast.Name) else ["?"]
+            chk.ob(rule, "%s:module-state(%s)" % (mn, nm), not _is_mutable_value(val) or not escapes,
                    "%s:%d" % (m.relpath, st.lineno),
-                   "module-level mutable object %s = %s in %s.py: results of encode/decode/parse "
-                   "could depend on earlier calls (other values, other IRs)" % (nm, unparse(val)[:40], mn), 1)
+                   "module-level mutable object %s = %s in %s.py is written or handed out (%s): results "
+                   "of encode/decode/parse could depend on earlier calls (other values, other IRs, "
+                   "other Serialization instances)" % (nm, unparse(val)[:40], mn, "; ".join(escapes[:3])), 1)
         for c in m.classes.values():
             allowed = ALLOWED_INSTANCE_STATE.get(c.name, set())
             for k, v in c.class_assigns.items():
